@@ -47,9 +47,7 @@ impl Admin {
     { unimplemented!() }
     #[verifier::external_body]
     pub fn query_admin(&self, deps: Deps) -> (r: StdResult<AdminResponse>)
-        ensures r is Ok ==> admin_of(deps.storage.view(), self.ns@) is Some
-            && (r->Ok_0.admin is Some <==> admin_of(deps.storage.view(), self.ns@)->Some_0 is Some)
-            && (r->Ok_0.admin is Some ==> r->Ok_0.admin->Some_0@ == admin_of(deps.storage.view(), self.ns@)->Some_0->Some_0@),
+        ensures r is Ok ==> admin_answer(deps.storage.view(), self.ns@, r->Ok_0),
     { unimplemented!() }
 }
 
@@ -85,9 +83,16 @@ impl Hooks {
     { unimplemented!() }
     #[verifier::external_body]
     pub fn query_hooks(&self, deps: Deps) -> (r: StdResult<HooksResponse>)
-        ensures r is Ok ==> r->Ok_0.hooks@.len() == hooks_of(deps.storage.view(), self.ns@).len()
-            && forall|i: int| 0 <= i < r->Ok_0.hooks@.len() ==> (#[trigger] r->Ok_0.hooks@[i])@ == hooks_of(deps.storage.view(), self.ns@)[i]@
+        ensures r is Ok ==> hooks_answer(deps.storage.view(), self.ns@, r->Ok_0)
     { unimplemented!() }
+}
+/// what the Admin / Hooks queries of cw-controllers answer
+pub open spec fn admin_answer(s: Raw, ns: Seq<char>, x: AdminResponse) -> bool {
+    admin_of(s, ns) is Some && (x.admin is Some <==> admin_of(s, ns)->Some_0 is Some)
+    && (x.admin is Some ==> x.admin->Some_0@ == admin_of(s, ns)->Some_0->Some_0@)
+}
+pub open spec fn hooks_answer(s: Raw, ns: Seq<char>, x: HooksResponse) -> bool {
+    x.hooks@.len() == hooks_of(s, ns).len() && forall|i: int| 0 <= i < x.hooks@.len() ==> (#[trigger] x.hooks@[i])@ == hooks_of(s, ns)[i]@
 }
 pub open spec fn old_has_hook(s: Raw, ns: Seq<char>, a: Seq<char>) -> bool {
     exists|i: int| 0 <= i < hooks_of(s, ns).len() && #[trigger] hooks_of(s, ns)[i]@ == a
